@@ -1129,4 +1129,72 @@ theorem munmapF_afterNew (pr : Proc) (s : SegId) (len : Nat) (ro : Bool)
       rw [ih (fun m' hm' => h m' (List.mem_cons_of_mem _ hm'))]
   exact this pr.maps hfresh
 
+/-! ## opening an existing segment: what is known afterwards (lock present or not) -/
+
+structure FollowerOpened (g g' : G) (t : Tid) (h : Hid) (k : ShmKey) (req : Nat) (ro : Bool) (s : SegId) (y : PShm) : Prop where
+  shmNames : g'.os.shmNames = g.os.shmNames
+  segs : g'.os.segs = g.os.segs
+  procs : g'.os.procs = fun q => if q = g.pidOf t then
+      (g.os.procs (g.pidOf t)).afterNew s (repSize req (g.os.segs s).bytes.length) ro else g.os.procs q
+  lock : g'.os.semNames (.lock k) = some y.sem.obj
+  lockKey : y.sem.key = .lock k
+  hs : g'.hs = fun h' => if h' = h then some (g.pidOf t, .shm y) else g.hs h'
+  idle : g'.calls t = none
+  pidOf : g'.pidOf = g.pidOf
+  addr : y.addr = (g.os.procs (g.pidOf t)).nextAddr
+  size : y.size = repSize req (g.os.segs s).bytes.length
+  key : y.key = k
+  created : y.created = false
+
+theorem follower_opened (g : G) (t : Tid) (h : Hid) (k : ShmKey) (req : Nat) (ro : Bool) (s : SegId)
+    (hi : Idle g t) (hh : g.hs h = none) (hk : g.os.shmNames k = some s) (hL : (g.os.segs s).bytes.length ≠ 0) :
+    ∃ y, FollowerOpened g (g.call t (.newShm h k req ro)) t h k req ro s y := by
+  cases hl : g.os.semNames (.lock k) with
+  | none =>
+    have c := call_newShm_existing_no_lock g t h k req ro s hi hh hk hl hL
+    exact ⟨followerHandle g t k req (g.os.segs s).bytes.length ro true g.os.nextObj,
+      ⟨by rw [c.1]; rfl, by rw [c.1]; rfl, by rw [c.1]; rfl, by rw [c.1]; simp [OS.semCreate, OS.afterShmNew, followerHandle],
+       rfl, c.2.1, c.2.2.1, c.2.2.2, rfl, rfl, rfl, rfl⟩⟩
+  | some ol =>
+    have c := call_newShm_existing g t h k req ro s ol hi hh hk hl hL
+    exact ⟨followerHandle g t k req (g.os.segs s).bytes.length ro false ol,
+      ⟨by rw [c.1]; rfl, by rw [c.1]; rfl, by rw [c.1]; rfl, by rw [c.1]; simpa [OS.afterShmNew, followerHandle] using hl,
+       rfl, c.2.1, c.2.2.1, c.2.2.2, rfl, rfl, rfl, rfl⟩⟩
+
+/-- store through one handle, load through another handle whose mapping is of the same object -/
+theorem write_then_read (g : G) (ta tb : Tid) (ha hb : Hid) (ya yb : PShm) (ma mb : Mapping) (off : Nat) (b : UInt8)
+    (ia : Idle g ta) (ib : Idle g tb)
+    (hha : g.hs ha = some (g.pidOf ta, .shm ya)) (hhb : g.hs hb = some (g.pidOf tb, .shm yb))
+    (hma : findMap (g.os.procs (g.pidOf ta)) ya.addr = some ma) (hmb : findMap (g.os.procs (g.pidOf tb)) yb.addr = some mb)
+    (hseg : ma.seg = mb.seg) (oa : ma.off = 0) (ob : mb.off = 0) (la : off < ma.len) (lb : off < mb.len)
+    (hw : ma.writable = true) (hsh : ma.shared = true) (hL : off < (g.os.segs ma.seg).bytes.length) :
+    ((g.call ta (.wr ha off b)).call tb (.rd hb off)).ret tb = some (.byte b) := by
+  have hst := store_eq g.os (g.pidOf ta) ya.addr off b ma hma la hw (by rw [oa]; simpa using hL) hsh
+  have w := call_wr g ta ha ya off b _ ia hha hst
+  generalize hg3 : g.call ta (.wr ha off b) = g3 at w
+  have hco := call_calls_other g ta (.wr ha off b) [] tb
+  rw [hg3] at hco
+  have ib3 : Idle g3 tb := by
+    refine ⟨by rw [w.1, w.2.2.2]; exact ib.alive, ?_⟩
+    by_cases e : tb = ta
+    · subst e; exact w.2.2.1
+    · rw [hco e]; exact ib.idle
+  have hhb3 : g3.hs hb = some (g3.pidOf tb, .shm yb) := by rw [w.2.1, w.2.2.2]; exact hhb
+  have r := call_rd g3 tb hb yb off ib3 hhb3
+  rw [r.1]
+  have hl : g3.os.load (g3.pidOf tb) yb.addr off = .val b := by
+    rw [w.2.2.2]
+    exact shared_bytes g.os g3.os (g.pidOf ta) (g.pidOf tb) ya.addr yb.addr off b ma mb hma hmb hseg oa ob la lb hw hsh hL
+      (by rw [w.1]; exact hst)
+  rw [hl]
+
+/-- a load below the mapped length and inside the object, through the mapping `p_shm_new` has just added -/
+theorem load_afterNew (os : OS) (p : Pid) (pr : Proc) (s : SegId) (len : Nat) (ro : Bool) (off : Nat)
+    (hp : os.procs p = pr.afterNew s len ro) (h1 : off < len) (h2 : off < (os.segs s).bytes.length) :
+    os.load p pr.nextAddr off = .val ((os.segs s).bytes[off]'h2) := by
+  have hm := findMap_afterNew_head pr s len ro
+  rw [← hp] at hm
+  have := load_eq os p pr.nextAddr off _ hm (by simpa using h1) (by simpa using h2)
+  simpa using this
+
 end PV.IPC
